@@ -28,12 +28,40 @@ structure MeshSvc where
   addr : String := ""
   deriving Repr
 
+/-- One `Sidecar.egress[].hosts` entry `namespace/dnsName` (`*` any namespace, `.` the Sidecar's own). -/
+structure EgressHost where
+  ns : String
+  host : String
+  deriving Repr
+
 structure Mesh where
   svcs : List MeshSvc := []
   vss : List VirtualService := []      -- creation order
+  sidecarNs : String := ""             -- namespace of the (single) Sidecar resource, "" = none
+  egress : List EgressHost := []
   proxyDomain : String := ""
   built : Bool := false                -- a route configuration was built for the current mesh (driver only)
   deriving Repr
+
+/-! ### Sidecar scope: what a `Sidecar` resource with egress hosts lets the proxy see (API text of
+    `IstioEgressListener.hosts`: "services ... in namespace/dnsName format"; VirtualServices are imported by
+    the same entries, a wildcard on either side matching in both directions). -/
+
+def EgressHost.selectsNs (e : EgressHost) (own ns : String) : Bool :=
+  e.ns == "*" || (if e.ns == "." then own else e.ns) == ns
+
+def svcImported (es : List EgressHost) (own : String) (s : MeshSvc) : Bool :=
+  es.any fun e => e.selectsNs own s.ns &&
+    (e.host == s.host || ((isWildcarded e.host || isWildcarded s.host) && hostSubsetOf s.host e.host))
+
+def vsImported (es : List EgressHost) (own : String) (v : VirtualService) : Bool :=
+  es.any fun e => e.selectsNs own v.ns &&
+    v.hosts.any fun h => e.host == h || ((isWildcarded e.host || isWildcarded h) && hostMatches h e.host)
+
+/-- The mesh as a proxy of namespace `pns` sees it. -/
+def scopeMesh (m : Mesh) (pns : String) : Mesh :=
+  if m.sidecarNs == "" || m.sidecarNs != pns then m
+  else { m with svcs := m.svcs.filter (svcImported m.egress pns), vss := m.vss.filter (vsImported m.egress pns) }
 
 /-- Names of a service as seen from the proxy: label-level rendering of the Kubernetes DNS search
     path for `<name>.<ns>.svc.<suffix>` seen from `<pns>.svc.<suffix>`. -/
